@@ -530,7 +530,10 @@ theorem benignP_applyCmd (s : St) (c : Cmd) : BenignP s (applyCmd s c) := by
     split
     · p_same
     · exact (BenignS.refl s).toP
-  case insReact e ty => p_push_same
+  case insReact e ty =>
+    split
+    · exact (BenignS.refl s).toP
+    · p_push_same
   case mutReact e ty => p_push_same
   case register trigs sys mode =>
     cases mode with
